@@ -843,7 +843,14 @@ func (e *Engine) box(v Value) string {
 	if !e.declared[fn] {
 		e.declareFun(fn, []string{srt}, "Int")
 		e.declareFun(un, []string{"Int"}, srt)
-		e.axioms = append(e.axioms, fmt.Sprintf("(forall ((x %s)) (! (= (%s (%s x)) x) :pattern ((%s x))))", srt, un, fn, fn))
+	}
+	// ground instance of unbox(box(x)) == x (what E-matching on the injectivity axiom would produce)
+	if e.bound == 0 {
+		k := "boxinst:" + fn + ":" + v.T
+		if !e.declared[k] {
+			e.declared[k] = true
+			e.assumes = append(e.assumes, eq(sx(un, sx(fn, v.T)), v.T))
+		}
 	}
 	return sx("mk-ifc", fmt.Sprint(e.tid(t)), sx(fn, v.T))
 }
@@ -855,7 +862,6 @@ func (e *Engine) unbox(ifc string, t types.Type) Value {
 	if !e.declared[fn] {
 		e.declareFun(fn, []string{srt}, "Int")
 		e.declareFun(un, []string{"Int"}, srt)
-		e.axioms = append(e.axioms, fmt.Sprintf("(forall ((x %s)) (! (= (%s (%s x)) x) :pattern ((%s x))))", srt, un, fn, fn))
 	}
 	tm := sx(un, sx("i_val", ifc))
 	e.assume("true", e.rangeFact(tm, t))
@@ -1027,6 +1033,7 @@ func (e *Engine) strEq(a, b string) string {
 	if lb, ok := e.strLitOf(b); ok {
 		return e.strEqLit(a, lb)
 	}
+	e.useStreq = true
 	return sx("streq", a, b)
 }
 
@@ -1045,6 +1052,7 @@ func (e *Engine) strEqLit(t string, lit string) string {
 		}
 		return and(cs...)
 	}
+	e.useStreq = true
 	return sx("streq", t, e.strLit(lit))
 }
 
